@@ -387,7 +387,7 @@ func completeGuarded(fn *ssa.Function, at *ssa.Store) bool {
 			continue
 		}
 		cmp, isCmp := iff.Cond.(*ssa.BinOp)
-		if !isCmp || cmp.Op != token.EQL {
+		if !isCmp || (cmp.Op != token.EQL && cmp.Op != token.NEQ) {
 			continue
 		}
 		_, fx, okx := fieldLoad(cmp.X)
@@ -395,8 +395,13 @@ func completeGuarded(fn *ssa.Function, at *ssa.Store) bool {
 		if !okx || !oky || !((fx == "CurrentSize" && fy == "FileSize") || (fx == "FileSize" && fy == "CurrentSize")) {
 			continue
 		}
-		then := b.Succs[0]
-		if !then.Dominates(at.Block()) || len(then.Preds) != 1 {
+		// the edge on which the two are equal: true edge of ==, false edge of != (guard-clause form)
+		ei := 0
+		if cmp.Op == token.NEQ {
+			ei = 1
+		}
+		then := b.Succs[ei]
+		if !edgeDominates(b, ei, at.Block()) {
 			continue
 		}
 		clean := true
